@@ -37,6 +37,9 @@ type Alpha struct {
 	EDSFaults []string
 	// ERSFaults: deviation variants of R_ers with one injected fault each ("<kind>:<text>", see Apply)
 	ERSFaults []string
+	// MidCmds: deviation variants of R_ers / R_eds during which a kubectl-eds command lands between the reconcile's
+	// reads and its first write ("mid:<command>:<ns/eds>", see Apply)
+	MidCmds []string
 	// OnlyERS: offer R_ers only for replica sets whose name is listed (empty = all)
 	OnlyERS []string
 	// OnlyEDS restricts user/deviation events to these ExtendedDaemonSets (ns/name); empty = all
@@ -198,6 +201,23 @@ func (a *Alpha) Enabled(s *State) []Event {
 		}
 		for _, f := range a.ERSFaults {
 			evs = append(evs, Event{K: "R_ers", A: nn(r), B: "fault:" + f, Dev: dev})
+		}
+	}
+	for _, c := range a.MidCmds {
+		for _, e := range edss {
+			if len(a.OnlyEDS) > 0 && !contains(a.OnlyEDS, nn(e)) {
+				continue
+			}
+			evs = append(evs, Event{K: "R_eds", A: nn(e), B: "mid:" + c + ":" + nn(e), Dev: dev})
+			for _, r := range s.ERSs() {
+				if r.Namespace != e.Namespace || r.Labels[v1.ExtendedDaemonSetNameLabelKey] != e.Name {
+					continue
+				}
+				if len(a.OnlyERS) > 0 && !contains(a.OnlyERS, r.Name) {
+					continue
+				}
+				evs = append(evs, Event{K: "R_ers", A: nn(r), B: "mid:" + c + ":" + nn(e), Dev: dev})
+			}
 		}
 	}
 	if a.Restart {
